@@ -437,11 +437,11 @@ func c14remoteDeleteClearsSubscription(c *Ctx) {
 	for _, g := range engine.WithClosures(f) {
 		var dels []ssa.Instruction
 		cut := c.mustCallInstrs(g, func(cc *ssa.CallCommon) bool {
-			return cc.IsInvoke() && cc.Method.Name() == "RemoveDeletedSubscriptionWithName"
+			return cc.IsInvoke() && engine.MethodName(cc.Method) == "RemoveDeletedSubscriptionWithName"
 		}, 2)
 		for _, cs := range engine.Calls(g) {
 			cc := cs.Common()
-			if cc.IsInvoke() && cs.Instr.Parent() == g && cc.Method.Name() == "DeleteMailboxWithRemoteID" {
+			if cc.IsInvoke() && cs.Instr.Parent() == g && engine.MethodName(cc.Method) == "DeleteMailboxWithRemoteID" {
 				dels = append(dels, cs.Instr)
 			}
 		}
